@@ -1427,6 +1427,13 @@ class Evaluator:
             if bad:
                 self.notes.append(("ctx-unknown-field", self.src(fr, e), bad))
             return base.with_(**{k: v for k, v in kwargs.items() if k in CTX_FIELDS})
+        # ---- any other method the context class itself defines (helper wrapping copy): inlined
+        if isinstance(base, CtxV):
+            cc = self.p.cls("SqlContext")
+            hf = cc.resolve(m)
+            if hf is not None:
+                args, kwargs = self.eval_args(e, fr)
+                return self.call_function(hf, cc, base, args, kwargs, self.src(fr, e))
         # ---- dict.get on constant tables
         if isinstance(base, DictV) and m == "get":
             args, _ = self.eval_args(e, fr)
